@@ -45,7 +45,7 @@ type Act struct {
 }
 
 type DMsg struct {
-	Type  int    `json:"type"`
+	Type  int    `json:"type"` // 1 text, 2 binary; 9 / 10: the writer goroutine sends a ping / pong through the message API (Size <= 125)
 	Size  int    `json:"size"`
 	Fill  uint64 `json:"fill"`
 	API   string `json:"api"` // WriteMessage | NextWriter
@@ -55,6 +55,8 @@ type DMsg struct {
 type Sender struct {
 	Frames []int `json:"frames"` // per control frame: 9 ping, 10 pong, 8 close
 	Lens   []int `json:"lens"`   // payload lengths
+	// Dl: per frame, the deadline given to WriteControl: 0 none, 1 already expired (the call gives up at once), 2 an hour ahead
+	Dl []int `json:"dl,omitempty"`
 }
 
 type Case struct {
@@ -63,8 +65,9 @@ type Case struct {
 	Msgs     []DMsg   `json:"msgs"`
 	Senders  []Sender `json:"senders"`
 	Script   []Act    `json:"script"`
-	CloseAt  int      `json:"close_at"`  // >=0: Conn.Close() is called once the transport has seen that many writes
-	PeerPing int      `json:"peer_ping"` // pings the peer sends (answered by the reader goroutine)
+	CloseAt  int      `json:"close_at"`           // >=0: Conn.Close() is called once the transport has seen that many writes
+	PeerPing int      `json:"peer_ping"`          // pings the peer sends (answered by the reader goroutine)
+	Compress bool     `json:"compress,omitempty"` // permessage-deflate negotiated: data messages travel compressed
 }
 
 var errInjected = errors.New("injected transport failure")
@@ -138,13 +141,13 @@ func runCase(c Case) (st stats, err error) {
 	g := &gated{script: c.Script, gate: make(chan struct{}, 1024), open: make(chan struct{}), closeAt: c.CloseAt}
 	in := xport.NewBlockPipe()
 	out := &wsx.Sink{}
-	cfg := wsx.Config{ReadBuf: 256, WriteBuf: c.WriteBuf}
+	cfg := wsx.Config{ReadBuf: 256, WriteBuf: c.WriteBuf, Compression: c.Compress}
 	var conn *websocket.Conn
 	var nc *wsx.Conn
 	if c.Server {
-		conn, nc, _, err = wsx.NewServer(cfg, false, in, out)
+		conn, nc, _, err = wsx.NewServer(cfg, c.Compress, in, out)
 	} else {
-		conn, nc, _, err = wsx.NewClient(cfg, false, in, out)
+		conn, nc, _, err = wsx.NewClient(cfg, c.Compress, in, out)
 	}
 	if err != nil {
 		return st, fmt.Errorf("handshake: %v", err)
@@ -178,6 +181,8 @@ func runCase(c Case) (st stats, err error) {
 	}
 	var ctlMu sync.Mutex
 	var ctlErrs []ctlErr
+	var sentCtl []string // payloads of the pings/pongs whose WriteControl returned nil
+	expiredOK, nExpired := true, 0
 	for si, s := range c.Senders {
 		wg.Add(1)
 		go func(si int, s Sender) {
@@ -198,12 +203,34 @@ func runCase(c Case) (st stats, err error) {
 					payload = rtmpx.Fill(n, uint64(si*100+fi+1))
 				}
 				after := atomic.LoadInt32(&closeSent) == 1
-				e := conn.WriteControl(op, payload, time.Time{})
+				var dl time.Time
+				expired := false
+				if fi < len(s.Dl) {
+					switch s.Dl[fi] {
+					case 1:
+						dl, expired = time.Now().Add(-time.Second), true
+					case 2:
+						dl = time.Now().Add(time.Hour)
+					}
+				}
+				e := conn.WriteControl(op, payload, dl)
 				if e == nil && op == websocket.CloseMessage {
 					atomic.StoreInt32(&closeSent, 1)
 				}
 				ctlMu.Lock()
-				ctlErrs = append(ctlErrs, ctlErr{si, fi, e, after})
+				if expired {
+					// a control frame whose deadline has passed is not sent: the call reports it (or the close already sent)
+					if e == nil {
+						ctlErrs = append(ctlErrs, ctlErr{si, fi, fmt.Errorf("WriteControl with a deadline in the past returned nil"), false})
+						expiredOK = false
+					}
+					nExpired++
+				} else {
+					ctlErrs = append(ctlErrs, ctlErr{si, fi, e, after})
+					if e == nil && op != websocket.CloseMessage {
+						sentCtl = append(sentCtl, string(payload))
+					}
+				}
 				ctlMu.Unlock()
 			}
 		}(si, s)
@@ -218,6 +245,27 @@ func runCase(c Case) (st stats, err error) {
 		p := rtmpx.Fill(m.Size, m.Fill|1)
 		after := atomic.LoadInt32(&closeSent) == 1
 		var e error
+		if m.Type >= 8 {
+			// the writer goroutine sends a ping/pong itself, through the message API
+			if m.API == "NextWriter" {
+				var w io.WriteCloser
+				if w, e = conn.NextWriter(m.Type); e == nil {
+					if _, e = w.Write(p); e == nil {
+						e = w.Close()
+					}
+				}
+			} else {
+				e = conn.WriteMessage(m.Type, p)
+			}
+			ctlMu.Lock()
+			if e == nil {
+				sentCtl = append(sentCtl, string(p))
+			} else if !after && e != websocket.ErrCloseSent {
+				ctlErrs = append(ctlErrs, ctlErr{-1, 0, e, after})
+			}
+			ctlMu.Unlock()
+			continue
+		}
 		if m.API == "NextWriter" {
 			var w interface {
 				Write([]byte) (int, error)
@@ -269,6 +317,7 @@ func runCase(c Case) (st stats, err error) {
 	}
 	// parse frame by frame; a trailing partial frame is only legal after a transport failure / Close()
 	var frames []wsref.Frame
+	compressedAt := map[int]bool{}
 	off := 0
 	var ends []int
 	for off < len(wire) {
@@ -281,6 +330,10 @@ func runCase(c Case) (st stats, err error) {
 		}
 		if f.Masked == c.Server {
 			return st, fmt.Errorf("frame at offset %d has masked=%v for a %s endpoint (a frame was split or corrupted)", off, f.Masked, role(c.Server))
+		}
+		if c.Compress && f.RSV == 4 && (f.Op == 1 || f.Op == 2) {
+			f.RSV = 0 // first frame of a compressed message
+			compressedAt[len(frames)] = true
 		}
 		if !minimal || f.RSV != 0 || (f.Op > 2 && f.Op < 8) || f.Op > 10 {
 			return st, fmt.Errorf("malformed frame at offset %d (op %d rsv %d minimal %v): a frame was split or corrupted", off, f.Op, f.RSV, minimal)
@@ -311,8 +364,20 @@ func runCase(c Case) (st stats, err error) {
 	var dataMsgs [][]byte
 	var types []int
 	var cur []byte
-	open := false
+	var wireCtl []string
+	open, curComp := false, false
 	closeSeen := -1
+	finish := func(i int) error {
+		if curComp {
+			plain, e := wsref.Inflate(cur)
+			if e != nil {
+				return fmt.Errorf("the compressed message ending at frame %d does not inflate: %v", i, e)
+			}
+			cur = plain
+		}
+		dataMsgs = append(dataMsgs, cur)
+		return nil
+	}
 	for i, f := range frames {
 		if closeSeen >= 0 {
 			return st, fmt.Errorf("frame %d (op %d) reached the wire after the Close frame", i, f.Op)
@@ -325,10 +390,12 @@ func runCase(c Case) (st stats, err error) {
 			if open {
 				return st, fmt.Errorf("frame %d starts a new message inside a fragmented one", i)
 			}
-			cur, open = append([]byte(nil), f.Payload...), !f.Fin
+			cur, open, curComp = append([]byte(nil), f.Payload...), !f.Fin, compressedAt[i]
 			types = append(types, int(f.Op))
 			if f.Fin {
-				dataMsgs = append(dataMsgs, cur)
+				if e := finish(i); e != nil {
+					return st, e
+				}
 			}
 		case f.Op == 0:
 			if !open {
@@ -337,19 +404,53 @@ func runCase(c Case) (st stats, err error) {
 			cur = append(cur, f.Payload...)
 			open = !f.Fin
 			if f.Fin {
-				dataMsgs = append(dataMsgs, cur)
+				if e := finish(i); e != nil {
+					return st, e
+				}
 			}
+		case f.Op == 9 || f.Op == 10:
+			wireCtl = append(wireCtl, string(f.Payload))
 		}
 	}
+	// every ping/pong on the wire carries a payload some sender gave (or answers a peer ping); none is garbled
+	legit := map[string]int{}
+	ctlMu.Lock()
+	for _, p := range sentCtl {
+		legit[p]++
+	}
+	ctlMu.Unlock()
+	for i := 0; i < c.PeerPing; i++ {
+		legit[string([]byte{byte(i), 0x55})]++
+	}
+	for _, p := range wireCtl {
+		if legit[p] == 0 {
+			// a call that failed (close sent, transport failure) may still have put its frame on the wire: accept what any sender tried
+			if !anyTried(c, p) {
+				return st, fmt.Errorf("a ping/pong on the wire carries %d bytes (%x..) that no sender gave", len(p), head([]byte(p)))
+			}
+			continue
+		}
+		legit[p]--
+	}
+	if !expiredOK {
+		return st, fmt.Errorf("WriteControl with a deadline in the past returned nil")
+	}
+	_ = nExpired
 	if closeSeen >= 0 && off != ends[closeSeen] {
 		return st, fmt.Errorf("%d bytes reached the wire after the Close frame", off-ends[closeSeen])
 	}
-	if len(dataMsgs) > len(c.Msgs) {
-		return st, fmt.Errorf("%d complete data messages on the wire, %d were written", len(dataMsgs), len(c.Msgs))
+	var dataOnly []DMsg
+	for _, m := range c.Msgs {
+		if m.Type < 8 {
+			dataOnly = append(dataOnly, m)
+		}
+	}
+	if len(dataMsgs) > len(dataOnly) {
+		return st, fmt.Errorf("%d complete data messages on the wire, %d were written", len(dataMsgs), len(dataOnly))
 	}
 	for i, d := range dataMsgs {
-		w := rtmpx.Fill(c.Msgs[i].Size, c.Msgs[i].Fill|1)
-		if types[i] != c.Msgs[i].Type || !bytes.Equal(d, w) {
+		w := rtmpx.Fill(dataOnly[i].Size, dataOnly[i].Fill|1)
+		if types[i] != dataOnly[i].Type || !bytes.Equal(d, w) {
 			return st, fmt.Errorf("data message %d on the wire (%d bytes) differs from the message written (%d bytes)", i, len(d), len(w))
 		}
 	}
@@ -389,6 +490,34 @@ func runCase(c Case) (st stats, err error) {
 	return st, nil
 }
 
+// anyTried: p is the payload some sender (or the writer itself) tried to send as a ping/pong.
+func anyTried(c Case, p string) bool {
+	for si, s := range c.Senders {
+		for fi := range s.Frames {
+			n := 0
+			if fi < len(s.Lens) {
+				n = s.Lens[fi]
+			}
+			if string(rtmpx.Fill(n, uint64(si*100+fi+1))) == p {
+				return true
+			}
+		}
+	}
+	for _, m := range c.Msgs {
+		if m.Type >= 8 && string(rtmpx.Fill(m.Size, m.Fill|1)) == p {
+			return true
+		}
+	}
+	return false
+}
+
+func head(b []byte) []byte {
+	if len(b) > 12 {
+		return b[:12]
+	}
+	return b
+}
+
 func waitTimeout(wg *sync.WaitGroup, d time.Duration) bool {
 	ch := make(chan struct{})
 	go func() { wg.Wait(); close(ch) }()
@@ -419,8 +548,12 @@ func genCase(t *rapid.T) Case {
 		if m.API == "NextWriter" {
 			m.Parts = rapid.SliceOfN(rapid.SampledFrom([]int{1, wb / 2, wb, wb + 1, 2*wb + 29, 3*wb + 40}), 0, 3).Draw(t, "parts")
 		}
+		if rapid.IntRange(0, 7).Draw(t, "ctlmsg") == 0 {
+			m.Type, m.Size, m.Parts = rapid.SampledFrom([]int{9, 10}).Draw(t, "ctltype"), rapid.SampledFrom([]int{0, 5, min(125, wb)}).Draw(t, "ctlsize"), nil // (a control frame sent through the message API has to fit the write buffer)
+		}
 		c.Msgs = append(c.Msgs, m)
 	}
+	c.Compress = rapid.IntRange(0, 2).Draw(t, "compress") == 0
 	k := rapid.IntRange(0, 4).Draw(t, "senders")
 	closer := -1
 	if k > 0 && rapid.IntRange(0, 2).Draw(t, "hasclose") == 0 {
@@ -432,6 +565,7 @@ func genCase(t *rapid.T) Case {
 		for j := 0; j < nf; j++ {
 			s.Frames = append(s.Frames, rapid.SampledFrom([]int{9, 10}).Draw(t, "cop"))
 			s.Lens = append(s.Lens, rapid.SampledFrom([]int{0, 1, 50, 125}).Draw(t, "clen"))
+			s.Dl = append(s.Dl, rapid.SampledFrom([]int{0, 0, 0, 1, 2}).Draw(t, "cdl"))
 		}
 		if i == closer {
 			s.Frames[rapid.IntRange(0, nf-1).Draw(t, "closepos")] = 8
